@@ -617,22 +617,23 @@ def _subpattern(p, items):
 
 
 def _prefix_free(p):
-    """No word of L(p) (guards ignored) is a proper prefix of another."""
-    reps = [c for c in symbol_classes([p]) if c != EOF]
+    """With one-symbol look-ahead: on no input are there two candidate matches
+    w1 < w2 (w.c in L' where c is the symbol that follows w in the input)."""
+    reps = symbol_classes([p])
     start = (p.initial(), False)
     seen = {start}
     dq = deque([start])
     while dq:
         S, after = dq.popleft()
         for c in reps:
-            n = _strip(p.step(S, c))
-            if not n:
-                continue
-            a2 = after or p.has_accept(S)
-            if a2 and p.has_accept(n):
+            n = p.step(S, c)
+            fin = Pattern.is_final(n)
+            if fin and after:
                 return False
-            st = (n, a2)
-            if st not in seen:
+            if c == EOF:
+                continue
+            st = (_strip(n), after or fin)
+            if st[0] and st not in seen:
                 seen.add(st)
                 dq.append(st)
     return True
